@@ -385,7 +385,7 @@ class Check:
             for k, w in sorted(self.known_witness.items()):
                 if k in self.known_hit: continue
                 try:
-                    src = open(os.path.join(VERIF, w), encoding="utf-8").read()
+                    src = open(os.path.join(VERIF, w), encoding="utf-8", newline="").read()
                     got = self.witness_runner(src)
                 except Exception as e:
                     got = None; self.log("witness %s could not be run: %s" % (w, e))
